@@ -52,6 +52,11 @@ def concrete_frame(pd, case, kind1, kind2):
     two = rows and rows[0][1] != NOCOL
     if two:
         df["p2"] = colvals(kind2, [r[1] for r in rows])
+    ixk = case.get("index", "range")
+    if ixk == "repeated":
+        df.index = pd.Index([i // 2 for i in range(n)])            # every label twice: selecting by label is ambiguous
+    elif ixk == "shuffled":
+        df.index = pd.Index([(i * 3 + 1) % max(n, 1) if n % 3 else n - 1 - i for i in range(n)])
     return df, (["p1", "p2"] if two else ["p1"])
 
 
@@ -86,7 +91,8 @@ def replay_chunk(args):
                 for (k1, k2) in kinds:
                     df, pcols = concrete_frame(pd, case, k1, k2)
                     path = os.path.join(d, "c%d-%s-%s-%s" % (ci, scheme, k1, k2))
-                    sig = {"scheme": scheme, "kinds": [k1] + ([k2] if len(pcols) == 2 else []), "partition_columns": len(pcols)}
+                    sig = {"scheme": scheme, "kinds": [k1] + ([k2] if len(pcols) == 2 else []), "partition_columns": len(pcols),
+                           "row_labels": case.get("index", "range")}
                     out["evals"] += 1
                     try:
                         fp.write(path, df, file_scheme=scheme, partition_on=pcols, row_group_offsets=list(case["offs"]),
@@ -207,6 +213,7 @@ def export(work, tag, **consts):
     cfg = os.path.join(work, "part-%s.cfg" % tag)
     c = {k: ("<- " + v if isinstance(v, str) else v) for k, v in consts.items()}
     c.setdefault("PathTimePrecision", "ns")
+    c.setdefault("IndexKinds", "<- IxAll")
     T.write_cfg(cfg, spec="Spec", constants=c, invariants=["RowsRoutedToTheirKeyDirectory", "MultisetPreserved",
                                                            "NoEmptyFile", "KindPreservedWithMeta", "TextInjective",
                                                            "TextParsesBack", "Export"], check_deadlock=False)
@@ -232,7 +239,7 @@ def _run(ev, work, thorough):
     # model sensitivity: a path text that drops the sub-microsecond part is not injective
     cfg = os.path.join(work, "part-mut.cfg")
     T.write_cfg(cfg, spec="Spec", constants=dict(NRows=1, KeyVals="<- K2", KeyVals2="<- One", Offsets="<- Offs4",
-                                                 PathTimePrecision="us"),
+                                                 PathTimePrecision="us", IndexKinds="<- IxRange"),
                 invariants=["TextInjective"], check_deadlock=False)
     mres = T.run_tlc("PartitionMC", cfg, work, timeout=600)
     if "TextInjective" not in (mres.violated or ""):
